@@ -16,7 +16,11 @@
 // Small ints times small powers of two: all arithmetic exact.  EXPS / MMAX as in c01_unscale_kkt.cpp.
 #include "lp_build.h"
 using namespace soplex; using namespace vph;
-#ifndef NR
+// shape: -DVNR=.. -DVNC=.. (not NR/NC on the command line: lp_build.h uses these names for template parameters)
+#ifdef VNR
+#define NR VNR
+#define NC VNC
+#else
 #define NR 2
 #define NC 2
 #endif
